@@ -83,6 +83,8 @@ def real_op(rt, T, td, opn, a, p):
         return a[0] * np.array(p['c']).reshape(p['cshape']) if p.get('cshape') is not None else a[0] * p['c']
     if opn == 'sqr':
         return a[0] * a[0]
+    if opn == 'rpow_pub':
+        return rt.np_pow(p['base'], a[0])       # public int base, secret nonnegative integral exponents
     if opn == 'matmul':
         return a[0] @ a[1]
     if opn == 'outer':
@@ -234,6 +236,11 @@ def ref_op(td, opn, a, p):
         c = np.array(p['c'], dtype=object).reshape(p['cshape']) if p.get('cshape') is not None else p['c']
         v = a[0][0] * c
         return wrap(v, a[0][1] * _absv(np.asarray(c, dtype=object) + 0 * v) + (u if td['kind'] == 'fxp' else 0))
+    if opn == 'rpow_pub':
+        v = a[0][0]
+        if any(int(x) != x or x < 0 or x > 64 for x in v.flat):
+            raise Skip
+        return wrap(np.vectorize(lambda x: Fr(p['base']) ** int(x), otypes=[object])(v) if v.size else v)
     if opn in ('mul', 'sqr'):
         (v1, e1) = a[0]
         (v2, e2) = a[1] if opn == 'mul' else a[0]
@@ -588,6 +595,19 @@ def gen(rng, cfg, tier='quick', kf=(), effects=False):
                       ['roll_secret', r0, [a0], {'shift': rng.randint(0, size)}], ['gather', None, [a0], {}],
                       ['mul', f0, [a0, x0], {}]]
             A += [x0, a0, r0, f0]
+        if kind == 'int' and rng.random() < 0.12:
+            # public int base ** secret whole nonnegative exponents (its own protocol, with its own additive masks)
+            base = rng.choice((2, 3, 5, -2))
+            room = td['l'] - td.get('f', 0) - 2
+            emax = max(0, int(room / np.log2(abs(base))) - 1)
+            size = rng.randint(1, 4)
+            ev = [rng.randint(0, emax) for _ in range(size)]
+            x0, p0 = fresh(), fresh()
+            mk = (lambda v: [v, 1]) if kind == 'fxp' else (lambda v: v)
+            stmts.append(['input', x0, [], {'sender': rng.randrange(cfg.m), 'shape': [size], 'values': [mk(v) for v in ev],
+                                            'dummy': [mk(rng.randint(0, emax)) for _ in range(size)]}])
+            stmts.append(['rpow_pub', p0, [x0], {'base': base}])
+            A += [x0, p0]
         env_ = reference({'type': td, 'stmts': stmts})
         n_ops = rng.randint(1, 3 if tier == 'quick' else 6)
         tries = 0
